@@ -442,7 +442,7 @@ fn run_codec(ver: u32, frags: &[Vec<u8>], gaps: &[u64]) -> RunResult {
 						path: std::path::PathBuf::new(),
 					}));
 				}
-				match canon_message(&m, ver) {
+				match ext::canon_any(m, ver) {
 					Some((t, c)) => {
 						res.events.push(format!("body:{}:{}:{}", t, c, bytes_read));
 						res.got.push(Exp::Body(t, c));
@@ -659,7 +659,10 @@ fn refusals(cx: &mut Ctx) {
 			emit_run(cx, ver, &[w], &r, true);
 		}
 		// at the limit and just below: accepted at the header (then the body is short / junk)
-		if lim > 0 && lim * 4 <= 4096 {
+		// (not for Header / CompactBlock: a junk body of a payload kind is a decoder matter - C11 - and the model
+		// of these lines delivers payload bodies as opaque bytes; acceptance AT the limit is checked for every
+		// type, header only, by `ext::limits_sweep`)
+		if lim > 0 && lim * 4 <= 4096 && t != 8 && t != 13 {
 			let len = 4 * lim;
 			let mut w = vec![73u8, 43, t];
 			w.extend_from_slice(&len.to_be_bytes());
@@ -2912,6 +2915,7 @@ fn main() {
 	}
 	if mode == "all" || mode == "hsthen" {
 		hs_then(&mut cx);
+		ext::handshake_frag(&mut cx);
 	}
 	if mode == "all" || mode == "timed" {
 		timed(&mut cx, &work);
@@ -2927,6 +2931,9 @@ fn main() {
 	}
 	if mode == "all" || mode == "hconn" {
 		ext::handler_results(&mut cx, &work);
+	}
+	if mode == "all" || mode == "payload" {
+		ext::payload_every_split(&mut cx, &work);
 	}
 	if mode == "all" || mode == "glue" {
 		glue::glue(&mut cx, &work);
